@@ -146,6 +146,7 @@ func Run(r *ev.Run, replay string) {
 		}
 	}
 	wg.Wait()
+	pypiExclusiveBounds(r)
 	rejectedMu.Lock()
 	r.Count("maven_versions_rejected", int64(len(rejectedGlobal)))
 	seenRej := map[string]bool{}
@@ -549,4 +550,81 @@ func reverse(n int) []int {
 		p[i] = n - 1 - i
 	}
 	return p
+}
+
+// pypiExclusiveBounds: PEP 440's exclusive comparison >V leaves out the
+// post-releases of V itself, and of no other release. For a final release X
+// whose release segment, zero-padded, differs from V's, X.postN is therefore
+// selected by ">V" exactly when X is. (The mirror rule for <V and
+// pre-releases is not stated here: whether a pre-release is selected also
+// depends on what else the list holds.) The law relates two answers of the
+// library; it needs no reference.
+func pypiExclusiveBounds(r *ev.Run) {
+	rng := r.Rand("pypi/exclusive-bounds")
+	rel := func(n int) []int {
+		out := make([]int, n)
+		for i := range out {
+			out[i] = rng.Intn(3)
+		}
+		return out
+	}
+	text := func(a []int) string {
+		ss := make([]string, len(a))
+		for i, x := range a {
+			ss[i] = fmt.Sprint(x)
+		}
+		return strings.Join(ss, ".")
+	}
+	samePadded := func(a, b []int) bool {
+		for i := 0; i < len(a) || i < len(b); i++ {
+			x, y := 0, 0
+			if i < len(a) {
+				x = a[i]
+			}
+			if i < len(b) {
+				y = b[i]
+			}
+			if x != y {
+				return false
+			}
+		}
+		return true
+	}
+	sel := func(req string, list ...string) map[string]bool {
+		var vs []resolve.Version
+		for _, v := range list {
+			vs = append(vs, resolve.Version{VersionKey: resolve.VersionKey{PackageKey: resolve.PackageKey{System: resolve.PyPI, Name: "p"}, VersionType: resolve.Concrete, Version: v}})
+		}
+		out := map[string]bool{}
+		for _, m := range resolve.MatchRequirement(resolve.VersionKey{PackageKey: resolve.PackageKey{System: resolve.PyPI, Name: "p"}, VersionType: resolve.Requirement, Version: req}, vs) {
+			out[m.Version] = true
+		}
+		return out
+	}
+	reported := map[string]bool{}
+	for i := 0; i < r.N(20000, 400000); i++ {
+		v := rel(1 + rng.Intn(3))
+		x := rel(1 + rng.Intn(5))
+		if rng.Intn(2) == 0 {
+			// X continues V: the first numbers agree, something follows.
+			x = append(append([]int(nil), v...), rel(1+rng.Intn(2))...)
+		}
+		if samePadded(v, x) {
+			continue
+		}
+		vt, xt := text(v), text(x)
+		for _, c := range []struct{ op, sfx, law string }{
+			{">", ".post" + fmt.Sprint(1+rng.Intn(2)), "post-release-of-another-release"},
+		} {
+			req := c.op + vt
+			got := sel(req, xt, xt+c.sfx)
+			r.Eval(1)
+			r.Count("pypi_exclusive_bound_pairs", 1)
+			if got[xt] != got[xt+c.sfx] && !reported[c.law] {
+				reported[c.law] = true
+				r.Violation("C12:PyPI:exclusive-bound:"+c.law, fmt.Sprintf("PyPI: from the list [%s %s] the requirement %q selects %s: %v and %s: %v; %s is not a release of %s, so PEP 440's exclusion of V's own post-/pre-releases does not apply and both must fare alike", xt, xt+c.sfx, req, xt, got[xt], xt+c.sfx, got[xt+c.sfx], xt+c.sfx, vt),
+					Case{Sys: "PyPI", Req: req, List: []Ver{{V: xt}, {V: xt + c.sfx}}})
+			}
+		}
+	}
 }
